@@ -111,7 +111,8 @@ def trash(ctx):
             k = getattr(n, 'pkey', None)
             if k:
                 deps.add(k)
-        post = any(k.startswith('step.to[1]') or k.startswith('self.results[') for k in deps) or \
+        # a raw read of self.results[..] happens before the step stored anything: that is still the pre-state
+        post = any(k.startswith('step.to[1]') for k in deps) or \
             any(isinstance(n, Ref) and (n.name.startswith('self.results[') or n.name == 'step.to[1]') for n in srcs)
         sel = any(isinstance(n, (Ref,)) and n.name == 'dest' for n in srcs)
         pre = any(k.startswith('step.to[0]') for k in deps) or \
